@@ -58,6 +58,34 @@ CHECKS = {
              "run is not memory safety.",
         technique="reference-model differential monitoring + sanitizers + coverage-guided fuzzing",
     ),
+    "C06": dict(
+        category="fault_enumeration", engine="fvmodel",
+        text="In-process monitor over fixed_vector with instance-counting element types (copyable and move-only; a "
+             "registry of live addresses detects double destruction, destruction of unknown objects and leaks at the "
+             "event; origin tags tell container-made from caller-made elements): after every operation size <= "
+             "capacity, fixed capacity, guard failures raise and leave the container unchanged, only caller-made "
+             "elements visible; ASan+UBSan+LSan+_GLIBCXX_ASSERTIONS watch the same executions. Exhaustive operation "
+             "sequences to depth 3 for capacities 0-3 (deeper for small capacities / thorough), random long ones; for "
+             "the last operation of each exhaustive sequence EVERY element copy/move position is made to throw in turn.",
+        design_ref="DESIGN.md section 4, C06",
+        note="front()/back()/operator[] outside [0,size) are caller preconditions and not exercised; after an injected "
+             "element throw only bounds, size<=capacity, no leak and no double destruction are demanded. A clean "
+             "sanitizer run is not memory safety.",
+        technique="invariant monitor with instrumented element types + fault enumeration under ASan/UBSan/LSan",
+    ),
+    "C07": dict(
+        category="exploration", engine="fvmodel",
+        text="Reference-model monitor: after every operation of every sequence (same enumeration as C06) both "
+             "containers of the harness are read through size/[]/at/begin-end/cbegin-cend/rbegin-rend/crbegin-crend/"
+             "data/front/back and compared with a std::vector<int> of unique element ids bounded by the capacity; "
+             "copies stay independent because both containers keep being operated on and compared; assignments must "
+             "return the target. A compile probe reports insert(const T&) not compiling.",
+        design_ref="DESIGN.md section 4, C07",
+        note="Capacity after an assignment and the contents of a moved-from container are adopted from the "
+             "observation (the property leaves them open); interior range inserts are compared only for fit, not for "
+             "overwrite-vs-shift. A sanitizer crash makes the C07 run inconclusive (it is C06's verdict).",
+        technique="reference-model (bounded std::vector) runtime monitor, exhaustive small-scope + random histories",
+    ),
     "C11": dict(
         category="exploration",
         text="Exhaustive over toggle declarations {letter?, reversible?, default none/0/1/3, env unbound/truthy/falsy} "
@@ -147,6 +175,9 @@ def main():
             "add_only": True,
         },
         "engines": [
+            {"name": "fvmodel", "path": "harness/fvmodel.cpp", "serves_properties": ["C06", "C07"],
+             "kind_free_text": "in-process operation-sequence enumerator for fixed_vector with instrumented element "
+                               "types, a bounded-sequence reference model and element-throw fault enumeration"},
             {"name": "optdrv", "path": "harness/optdrv.cpp",
              "serves_properties": ["C01", "C02", "C03", "C04", "C11", "C12", "C13", "C14", "C15"],
              "kind_free_text": "script driver for nitro::options built with ASan+UBSan; Python reference model "
